@@ -16,7 +16,7 @@ from hypothesis import strategies as st
 from vf import sem
 
 PROP = "C06"
-CASES = {"quick": 12000, "thorough": 600000}
+CASES = {"quick": 12000, "thorough": 800000}
 RULE = ("typed random expression trees (depth<=6) over 4 leaf points, 3 leaf expressions and int/float scalars "
         "(zero, negative, repeated operands, p*q and q*p, p**2, right-hand operators, 5 comparisons) with a "
         "generated valuation (dimension 1..4); plus the exhaustive table operator x operand-kind x operand-kind. "
